@@ -52,7 +52,11 @@ def EncOpts.att (o : EncOpts) (i : Nat) : AttOpts := o.atts.getD i {}
 structure Choices where
   /-- the `double` expressions of `RAnsSymbolEncoder::Create` -/
   oracle : ProbOracle
-  /-- `SelectPredictionMethod(att_id, encoder)` -/
+  /-- INTERNAL: the result of `SelectPredictionMethod(att_id, encoder)` per attribute as seen by the
+      per-attribute functions below. It is NOT a free choice of the whole-stream encoder:
+      `encodeGeometry` overwrites it with `selectPredictionMethod` computed from geometry and options
+      (`Choices.resolved`), so a caller's value is ignored (`encodeGeometry_ignores_selectPrediction`).
+      The genuinely `double`-driven choices are the other three fields. -/
   selectPrediction : Nat → Int
   /-- tagged / raw scheme chosen by `EncodeSymbols` for the values of attribute `att_id` -/
   attScheme : Nat → Scheme
@@ -186,15 +190,19 @@ def octaEnc (t : OctaT) (orig pred : List Int) : List Int :=
     Normal encoder (`SequentialNormalAttributeEncoder::CreateIntPredictionScheme`): option or
     `SelectPredictionMethod`; GEOMETRIC_NORMAL and DIFFERENCE give the delta encoder, anything
     else nullptr. -/
-def predictionEnabled (ch : Choices) (o : AttOpts) (i kind : Nat) : Bool :=
+def predictionEnabledSel (sel : Int) (o : AttOpts) (kind : Nat) : Bool :=
   if kind == 3 then
-    let pm := o.prediction.getD (ch.selectPrediction i)
+    let pm := o.prediction.getD sel
     pm == Generated.MESH_PREDICTION_GEOMETRIC_NORMAL || pm == Generated.PREDICTION_DIFFERENCE
   else
     let p := o.prediction.getD (-1)
-    let m := if p == -1 then ch.selectPrediction i
+    let m := if p == -1 then sel
              else if p < 0 || p ≥ Generated.NUM_PREDICTION_SCHEMES then Generated.PREDICTION_NONE else p
     m != Generated.PREDICTION_NONE
+
+/-- … with the result of `SelectPredictionMethod` taken from `ch.selectPrediction` -/
+def predictionEnabled (ch : Choices) (o : AttOpts) (i kind : Nat) : Bool :=
+  predictionEnabledSel (ch.selectPrediction i) o kind
 
 /-- the raw (`use_built_in_attribute_compression = false`) path of `EncodeValues`:
     `num_bytes = 1 + msb(OR of all values) / 8`, then the low `num_bytes` bytes of every value -/
@@ -424,9 +432,60 @@ def encodeMetadataPart : Option GeometryMetadata → Option Bytes
   | none => some []
   | some m => if encodeGeometryMetadataStatusFixed m then some (encodeGeometryMetadata m) else none
 
-/-- `PointCloudEncoder::Encode` of `PointCloudSequentialEncoder` / `MeshSequentialEncoder`;
+/-! ### prediction method selection (pure integer / option logic) -/
+
+/-- `IsDataTypeIntegral` -/
+def isIntegralType (dt : Nat) : Bool := (1 ≤ dt && dt ≤ 8) || dt == 11
+
+/-- `PointCloud::GetNamedAttributeId(type)`: the first attribute of that type -/
+def namedAttributeId (atts : List Attribute) (t : Nat) : Option Nat :=
+  atts.findIdx? fun a => a.attType == t
+
+/-- `SelectPredictionMethod(att_id, options, encoder)` (prediction_scheme_encoder_factory.cc):
+    speed ≥ 10 → DIFFERENCE; point clouds → DIFFERENCE; meshes: the texture-coordinate predictor for
+    quantized 2-component TEX_COORD attributes when the position attribute is integral or quantized to
+    ≤ 21 bits with `2·pos_bits + uv_bits < 64` and speed < 4, the geometric normal predictor for NORMAL
+    attributes at speed < 4 when positions are integral or quantized, else DIFFERENCE at speed ≥ 8,
+    PARALLELOGRAM at speed ≥ 2 or fewer than 40 points, else CONSTRAINED_MULTI_PARALLELOGRAM.
+    (Same function as `EbEnc.selectPredictionMethod` for meshes: `selectPredictionMethod_eq_eb`.) -/
+def selectPredictionMethod (isMesh : Bool) (o : EncOpts) (atts : List Attribute) (numPoints attId : Nat) : Int :=
+  if o.speed ≥ 10 then Generated.PREDICTION_DIFFERENCE else
+  if !isMesh then Generated.PREDICTION_DIFFERENCE else
+  let a := atts.getD attId default
+  let attQuant := (o.att attId).quantBits
+  let posId := namedAttributeId atts Generated.geometryAttribute_POSITION.toNat
+  let texCase : Bool :=
+    attQuant != -1 && a.attType == Generated.geometryAttribute_TEX_COORD.toNat && a.numComponents == 2 &&
+    (match posId with
+     | none => false
+     | some pid =>
+       let pa := atts.getD pid default
+       let valid := if isIntegralType pa.dataType then true else
+         let pq := (o.att pid).quantBits
+         decide (pq > 0) && decide (pq ≤ 21) && decide (2 * pq + attQuant < 64)
+       valid && decide (o.speed < 4))
+  if texCase then Generated.MESH_PREDICTION_TEX_COORDS_PORTABLE else
+  if a.attType == Generated.geometryAttribute_NORMAL.toNat then
+    (if o.speed < 4 then
+      match posId with
+      | none => Generated.PREDICTION_DIFFERENCE
+      | some pid =>
+        if isIntegralType (atts.getD pid default).dataType || (o.att pid).quantBits > 0 then
+          Generated.MESH_PREDICTION_GEOMETRIC_NORMAL
+        else Generated.PREDICTION_DIFFERENCE
+     else Generated.PREDICTION_DIFFERENCE)
+  else if o.speed ≥ 8 then Generated.PREDICTION_DIFFERENCE
+  else if o.speed ≥ 2 || numPoints < 40 then Generated.MESH_PREDICTION_PARALLELOGRAM
+  else Generated.MESH_PREDICTION_CONSTRAINED_MULTI_PARALLELOGRAM
+
+/-- the choices with `selectPrediction` computed by the model from geometry and options -/
+def Choices.resolved (ch : Choices) (g : Geometry) (opts : EncOpts) : Choices :=
+  { ch with selectPrediction := selectPredictionMethod g.isMesh opts g.atts g.numPoints }
+
+/-- `PointCloudEncoder::Encode` of `PointCloudSequentialEncoder` / `MeshSequentialEncoder` for given
+    results of `SelectPredictionMethod` (`ch.selectPrediction`);
     also returns the per-attribute encoder states (used to state what the decoder returns). -/
-def encodeGeometryFull (ch : Choices) (g : Geometry) (md : Option GeometryMetadata) (opts : EncOpts) :
+def encodeGeometryCore (ch : Choices) (g : Geometry) (md : Option GeometryMetadata) (opts : EncOpts) :
     Option (Bytes × List AttEnc) :=
   match encodeMetadataPart md with
   | none => none
@@ -442,6 +501,12 @@ def encodeGeometryFull (ch : Choices) (g : Geometry) (md : Option GeometryMetada
       | none => none
       | some (ab, encs) =>
         some (encodeHeader g.isMesh md.isSome ++ mdBytes ++ gd ++ ab, encs)
+
+/-- `PointCloudEncoder::Encode` of the sequential encoders: the prediction methods are computed from
+    geometry and options (`Choices.resolved`), only the `double`-driven decisions come from `ch` -/
+def encodeGeometryFull (ch : Choices) (g : Geometry) (md : Option GeometryMetadata) (opts : EncOpts) :
+    Option (Bytes × List AttEnc) :=
+  encodeGeometryCore (ch.resolved g opts) g md opts
 
 /-- the bytes of the encoded geometry -/
 def encodeGeometry (ch : Choices) (g : Geometry) (md : Option GeometryMetadata) (opts : EncOpts) :
@@ -602,6 +667,29 @@ def quantReq (g : Geometry) (opts : EncOpts) : List (Nat × Nat) :=
 
 /-- all attribute types: the skip set of the "all transforms skipped" decode -/
 def allTypes : List Nat := [0, 1, 2, 3, 4]
+
+/-- the prediction scheme bytes at the head of the value block of attribute `i` — prediction method and,
+    with a prediction scheme, the transform type — computed from geometry and options ALONE (no choices,
+    no stream): empty for the generic encoder and for an attribute without values; `PREDICTION_NONE`
+    when the resolved method is NONE or the value range cannot be represented by the wrap transform
+    (fix 8ef32e0); else `PREDICTION_DIFFERENCE` with the wrap (integer / quantization) or the
+    canonicalized octahedron (normals) transform -/
+def schemePrefix (kind : Nat) (pred : Bool) (portable : List Int) : Bytes :=
+  let pred' := pred && (match Wrap.dataBounds portable with
+    | none => true
+    | some (mn, mx) => decide (mx - mn < 2^31 - 1))
+  if pred' then
+    [toUnsigned 8 Generated.PREDICTION_DIFFERENCE,
+     toUnsigned 8 (if kind == 3 then Generated.PREDICTION_TRANSFORM_NORMAL_OCTAHEDRON_CANONICALIZED
+                   else Generated.PREDICTION_TRANSFORM_WRAP)]
+  else [toUnsigned 8 Generated.PREDICTION_NONE]
+
+def schemeBytesOf (g : Geometry) (opts : EncOpts) (i : Nat) (a : Attribute) : Bytes :=
+  let kind := encoderType a (opts.att i)
+  if kind == 0 || a.numValues == 0 then [] else
+  schemePrefix kind
+    (predictionEnabledSel (selectPredictionMethod g.isMesh opts g.atts g.numPoints i) (opts.att i) kind)
+    (portableOf opts g.numPoints i a).1
 
 /-- float oracle hypothesis for one normal: the first rounded coordinate computed by
     `FloatVectorToQuantizedOctahedralCoords` has magnitude at most `center_value_` (holds for every
